@@ -218,12 +218,24 @@ def singlePath (term output : List Nat) : SinglePath :=
   else if term.length = output.length then .transpose (output.map term.idxOf)
   else .einsum
 
-/-- what the chosen path computes, in the array model -/
-def evalSinglePath (term output : List Nat) (x : FArr) : Option FArr :=
-  match singlePath term output with
+/-- what a path computes, in the array model -/
+def evalPath (term output : List Nat) (p : SinglePath) (x : FArr) : Option FArr :=
+  match p with
   | .identity => some x
-  | .transpose p => transpose p x
+  | .transpose q => transpose q x
   | .einsum => some (einsum1 term output x)
+
+/-- what the chosen path computes -/
+def evalSinglePath (term output : List Nat) (x : FArr) : Option FArr :=
+  evalPath term output (singlePath term output) x
+
+/-- admissibility of a path for `term -> output` (the real code is free to take the general
+    einsum path more often than HEAD does): returning the array needs `term = output`, a transpose
+    needs equally many labels and the permutation `tuple(map(term.index, output))` -/
+def pathOK (term output : List Nat) : SinglePath → Bool
+  | .identity => term == output
+  | .transpose q => term.length == output.length && q == output.map term.idxOf
+  | .einsum => true
 
 /-! ### ncon -/
 
